@@ -166,6 +166,19 @@ theorem sorted_head_le {coords : List Rat} (h : Sorted coords) (hne : coords ≠
 theorem countLE_le_length (coords : List Rat) (v : Rat) : countLE coords v ≤ coords.length :=
   List.countP_le_length
 
+/-- value of the lookup on a non-empty sorted axis, by cases on the position of `v` -/
+theorem coordIndex_sorted (coords : List Rat) (v : Rat) (raise : Bool) (hs : Sorted coords)
+    (hne : coords ≠ []) :
+    coordIndex coords v raise =
+      if v < coords.head hne ∨ v > coords.getLast hne then
+        (if raise then .error .key else if v < coords.head hne then .ok 0 else .ok coords.length)
+      else .ok (countLE coords v - 1) := by
+  cases coords with
+  | nil => exact absurd rfl hne
+  | cons x xs =>
+    simp only [coordIndex, listMin_sorted hs, listMax_sorted hs, List.head_cons]
+    rfl
+
 /-! ### more about lattices (C17) -/
 
 theorem lattice_append (a s : Rat) (m k : Nat) :
